@@ -423,6 +423,9 @@ def judge_c16(cfg, market, out, ctx):
 def judge_c19(cfg, market, out, ctx):
     P = "C19"
     u = cfg["universe"]
+    if u["kind"] == "leaving":
+        ctx.probe("c19_custom_universe:not_judged")     # the property speaks about the two shipped universes
+        return
     entries = u.get("entries") if u["kind"] == "dynamic" else None
     first_pcm_for = {}
     for p in out.rec.pcm:
@@ -718,8 +721,10 @@ def simplifications(plan):
             del p["market"]["assets"][s]
             p["market"].get("applied", {}).pop(s, None)
             u = p["cfg"]["universe"]
-            if u["kind"] == "static":
+            if u["kind"] in ("static", "leaving"):
                 u["assets"] = [x for x in u["assets"] if x != a]
+                if u["kind"] == "leaving":
+                    u["leave"].pop(a, None)
                 if not u["assets"]:
                     continue
             else:
